@@ -661,7 +661,7 @@ def stream(ctx, flavour, quick, monitor):
         root, info = overlay.sync('checked')
         ctx.extra['checked_overlay'] = info if len(str(info)) < 600 else {'built': info.get('built'), 'wall_s': info.get('wall_s')}
     tasks = build_tasks(ctx, flavour, quick)
-    limit = 6 if quick else 15
+    limit = 10 if quick else 20
     t0 = time.time()
     results = run_pool(root, tasks, limit, _nworkers(), monitor=monitor, tag=flavour[0])
     ctx.extra['stream_' + flavour] = {'tasks': len(tasks), 'wall_s': round(time.time() - t0, 1), 'limit_s': limit}
